@@ -425,6 +425,13 @@ func (x *c13) parentUpdates() {
 			}
 			// on the non-last side the parent's lastArgIndex must not change and no delegate
 			for _, s := range ls {
+				// (a tail case written out in place of the call to append updates them
+				// under nextTo.nextSiblingIndex == Invalid)
+				if hasFact(g.FactsAt(s.n), func(f Fact) bool {
+					return f.Y != nil && f.Op == token.EQL && x.valExpr(f.X) == "nextTo.nextSiblingIndex" && x.valExpr(f.Y) == "Invalid"
+				}) {
+					continue
+				}
 				if (s.field == x.last || s.field == x.first) && bad == "" {
 					bad = "appendAfter changes the parent's first/last index although the new node is inserted in the middle"
 				}
